@@ -34,7 +34,7 @@ pub struct Sel { pub rk: Option<Rk>, pub rrk: bool, pub uv: UvR }
 pub struct RegOp { pub org: Org, pub allow_localhost: bool, pub rp: Option<String>, pub user: Vec<u8>, pub challenge: Vec<u8>, pub algs: Vec<i64>,
     pub exclude: Option<Vec<Vec<u8>>>, pub sel: Option<Sel>, pub ext: Option<CExt>, pub cd: CdMode }
 #[derive(Clone, Debug)]
-pub struct AuthOp { pub org: Org, pub allow_localhost: bool, pub rp: Option<String>, pub challenge: Vec<u8>, pub allow: Option<Vec<Vec<u8>>>, pub allow_last: bool, pub allow_refs: Vec<usize>, pub uv: UvR,
+pub struct AuthOp { pub org: Org, pub allow_localhost: bool, pub rp: Option<String>, pub challenge: Vec<u8>, pub allow: Option<Vec<Vec<u8>>>, pub allow_last: bool, pub allow_refs: Vec<usize>, pub unk: Vec<usize>, pub uv: UvR,
     pub ext: Option<CExt>, pub cd: CdMode }
 
 fn uvr(u: UvR) -> UserVerificationRequirement { match u { UvR::Required => UserVerificationRequirement::Required, UvR::Preferred => UserVerificationRequirement::Preferred, UvR::Discouraged => UserVerificationRequirement::Discouraged } }
@@ -62,9 +62,12 @@ fn cd_s(c: &CdMode) -> String {
     match c { CdMode::Default => "D".into(), CdMode::Hash(h) => format!("H{}", hexf(h)),
         CdMode::Extra(m) => { let t = serde_json::to_string(&serde_json::Value::Object(m.clone())).unwrap(); format!("X{}", hexf(t[1..t.len() - 1].as_bytes())) } }
 }
-fn ids_s(l: &Option<Vec<Vec<u8>>>) -> String { match l { None => "N".into(), Some(v) if v.is_empty() => "E".into(), Some(v) => v.iter().map(|i| hexf(i)).collect::<Vec<_>>().join(",") } }
-fn descs(l: &Option<Vec<Vec<u8>>>) -> Option<Vec<PublicKeyCredentialDescriptor>> {
-    l.as_ref().map(|v| v.iter().map(|i| PublicKeyCredentialDescriptor { ty: PublicKeyCredentialType::PublicKey, id: i.clone().into(), transports: None }).collect())
+fn ids_s(l: &Option<Vec<Vec<u8>>>) -> String { ids_su(l, &[]) }
+/// an entry typed `Unknown` (index in `unk`) is prefixed with `u`
+fn ids_su(l: &Option<Vec<Vec<u8>>>, unk: &[usize]) -> String { match l { None => "N".into(), Some(v) if v.is_empty() => "E".into(), Some(v) => v.iter().enumerate().map(|(k, i)| format!("{}{}", if unk.contains(&k) { "u" } else { "" }, hexf(i))).collect::<Vec<_>>().join(",") } }
+fn descs(l: &Option<Vec<Vec<u8>>>) -> Option<Vec<PublicKeyCredentialDescriptor>> { descs_u(l, &[]) }
+fn descs_u(l: &Option<Vec<Vec<u8>>>, unk: &[usize]) -> Option<Vec<PublicKeyCredentialDescriptor>> {
+    l.as_ref().map(|v| v.iter().enumerate().map(|(k, i)| PublicKeyCredentialDescriptor { ty: if unk.contains(&k) { PublicKeyCredentialType::Unknown } else { PublicKeyCredentialType::PublicKey }, id: i.clone().into(), transports: None }).collect())
 }
 fn alg_of(a: i64) -> coset::iana::Algorithm { use coset::iana::EnumI64; coset::iana::Algorithm::from_i64(a).unwrap_or(coset::iana::Algorithm::RS512) }
 
@@ -129,7 +132,7 @@ fn run_generic<S: Inner + 'static>(ctx: &mut Ctx, prop: &str, w: &World, inner: 
     let uvst = Arc::new(Mutex::new(UvState::ok()));
     let mut store = RecStore::new(inner, log.clone());
     for p in &w.preload { store.inner.put(p.clone()); }
-    let mut auth = Authenticator::new(Aaguid::new_empty(), store, SharedUv { st: uvst.clone(), log: log.clone(), yields: false });
+    let mut auth = Authenticator::new(Aaguid::from(crate::util::AAGUID), store, SharedUv { st: uvst.clone(), log: log.clone(), yields: false });
     auth.set_make_credentials_with_signature_counter(w.counter_on);
     auth.set_make_credential_id_length(CredentialIdLength::from(w.id_len));
     if let Some(c) = hm_cfg(w.hm) { auth = auth.hmac_secret(c); }
@@ -195,7 +198,7 @@ fn run_generic<S: Inner + 'static>(ctx: &mut Ctx, prop: &str, w: &World, inner: 
                 let Some((of, url)) = origin_fields(&a.org, a.rp.as_deref(), a.allow_localhost) else { ctx.stat("cl.url_parse_error"); continue; };
                 client = client.allows_insecure_localhost(a.allow_localhost);
                 let opts = webauthn::CredentialRequestOptions { public_key: webauthn::PublicKeyCredentialRequestOptions {
-                    challenge: a.challenge.clone().into(), timeout: None, rp_id: a.rp.clone(), allow_credentials: descs(&a.allow),
+                    challenge: a.challenge.clone().into(), timeout: None, rp_id: a.rp.clone(), allow_credentials: descs_u(&a.allow, &a.unk),
                     user_verification: uvr(a.uv), hints: None, attestation: Default::default(), attestation_formats: None, extensions: ext_real(&a.ext) } };
                 let res = guarded(|| {
                     let link = Url::parse("https://example.com/.well-known/assetlinks.json").unwrap();
@@ -210,7 +213,7 @@ fn run_generic<S: Inner + 'static>(ctx: &mut Ctx, prop: &str, w: &World, inner: 
                 let ev = log.lock().unwrap().join(";");
                 let obs = format!("res={} ev={} store={}", rs, if ev.is_empty() { "-".into() } else { ev }, snap_pub(&client.authenticator().store().inner.all()));
                 ctx.stat(&format!("cl.auth.{}", rs.split(':').next().unwrap()));
-                ctx.line(&format!("cl.auth {} {} {} {} {} {} {} {} {}", of, a.rp.as_ref().map(|s| hexf(s.as_bytes())).unwrap_or("NONE".into()), hexf(&a.challenge), ids_s(&a.allow), uvr_c(a.uv), ext_s(&a.ext), cd_s(&a.cd), st.uv.enc(), faults_pub(&st.faults)), &obs);
+                ctx.line(&format!("cl.auth {} {} {} {} {} {} {} {} {}", of, a.rp.as_ref().map(|s| hexf(s.as_bytes())).unwrap_or("NONE".into()), hexf(&a.challenge), ids_su(&a.allow, &a.unk), uvr_c(a.uv), ext_s(&a.ext), cd_s(&a.cd), st.uv.enc(), faults_pub(&st.faults)), &obs);
             }
         }
     }
@@ -234,5 +237,5 @@ pub fn simple_reg(ctx: &mut Ctx, url: &str, rp: Option<&str>) -> RegOp {
         exclude: None, sel: None, ext: None, cd: CdMode::Default }
 }
 pub fn simple_auth(ctx: &mut Ctx, url: &str, rp: Option<&str>) -> AuthOp {
-    AuthOp { org: Org::Web(url.to_string()), allow_localhost: false, rp: rp.map(|s| s.to_string()), challenge: ctx.rng.bytes(32), allow: None, allow_last: false, allow_refs: vec![], uv: UvR::Preferred, ext: None, cd: CdMode::Default }
+    AuthOp { org: Org::Web(url.to_string()), allow_localhost: false, rp: rp.map(|s| s.to_string()), challenge: ctx.rng.bytes(32), allow: None, allow_last: false, allow_refs: vec![], unk: vec![], uv: UvR::Preferred, ext: None, cd: CdMode::Default }
 }
